@@ -15,6 +15,9 @@ def step_strategy(big_payloads=False, faults=True):
         st.sampled_from([0, 0, 7, 70000] if big_payloads else [0, 0, 7]),
         st.sampled_from([0, 3]),
         st.sampled_from([False, False, True]),  # the script ignores SIGTERM
+        # None: the loop runs until nothing is left to do; n: only n iterations, so that the next step (a cancel,
+        # another submission) arrives while this task is at one of its first await points
+        st.sampled_from([None] * 6 + [0, 1, 2, 3, 4]),
     )
     exit_ = st.tuples(st.just("exit"), st.integers(0, 5),
                       st.sampled_from([0, 0, 0, 0, 1, 2, 127, -15]))
